@@ -1,5 +1,6 @@
 import ACModel.Model.Update
 import ACModel.Props.C13
+import ACModel.Props.C04
 /-
   C17 — Manual edits through update_discretizer are applied coherently
 
@@ -286,6 +287,109 @@ theorem update_refreshes_labels (s s' : Disc) (f : String) (mode : Mode) (d k : 
   rcases hc with ⟨_, hs⟩ | ⟨o2, t, _, hl, hs⟩
   · subst hs; exact Or.inl rfl
   · subst hs; exact Or.inr hl
+
+/-! ## What a `group` edit does to the groups (through the reference model of C13) -/
+
+theorem get?_set_same : ∀ (s : Dict) (k : Val) (vs : List Val), Dict.get? (Dict.set s k vs) k = some vs := by
+  intro s
+  induction s with
+  | nil => intro k vs; simp [Dict.set, Dict.get?]
+  | cons kv t ih =>
+    intro k vs
+    obtain ⟨k', vs'⟩ := kv
+    by_cases h : k' = k
+    · simp [Dict.set, Dict.get?, h]
+    · simp [Dict.set, Dict.get?, h, ih]
+
+theorem get?_set_other : ∀ (s : Dict) (k l : Val) (vs : List Val), l ≠ k → Dict.get? (Dict.set s k vs) l = Dict.get? s l := by
+  intro s
+  induction s with
+  | nil => intro k l vs h; simp [Dict.set, Dict.get?, Ne.symm h]
+  | cons kv t ih =>
+    intro k l vs h
+    obtain ⟨k', vs'⟩ := kv
+    by_cases hk : k' = k
+    · subst hk
+      have hne : ¬ k' = l := fun e => h e.symm
+      simp only [Dict.set, if_true, Dict.get?, hne, if_false]
+    · by_cases hl : k' = l
+      · subst hl
+        simp only [Dict.set, hk, if_false, Dict.get?, if_true]
+      · simp only [Dict.set, hk, if_false, Dict.get?, hl, ih k l vs h]
+
+theorem get?_filter_ne : ∀ (s : Dict) (d l : Val), l ≠ d →
+    Dict.get? (s.filter (fun kv => kv.1 ≠ d)) l = Dict.get? s l := by
+  intro s
+  induction s with
+  | nil => intro d l _; rfl
+  | cons kv t ih =>
+    intro d l h
+    obtain ⟨k', vs'⟩ := kv
+    by_cases hd : k' = d
+    · subst hd
+      have hne : ¬ k' = l := fun e => h e.symm
+      have hfl : List.filter (fun kv : Val × List Val => decide (kv.1 ≠ k')) ((k', vs') :: t) =
+          List.filter (fun kv : Val × List Val => decide (kv.1 ≠ k')) t := by
+        simp [List.filter_cons]
+      rw [hfl]
+      simp only [Dict.get?, hne, if_false]
+      exact ih k' l h
+    · have hfl : List.filter (fun kv : Val × List Val => decide (kv.1 ≠ d)) ((k', vs') :: t) =
+          (k', vs') :: List.filter (fun kv : Val × List Val => decide (kv.1 ≠ d)) t := by
+        simp [List.filter_cons, hd]
+      rw [hfl]
+      by_cases hl : k' = l
+      · subst hl; simp only [Dict.get?, if_true]
+      · simp only [Dict.get?, hl, if_false]
+        exact ih d l h
+
+/-- **`group` merges the discarded group into the kept one**: afterwards the kept leader's group
+    is the members of the discarded group followed by its own. -/
+theorem group_merges_members {g : GL} (h : g.WF) {d k : Val} (hd : d ∈ g.lst) (hk : k ∈ g.lst) (hdk : d ≠ k) :
+    (g.group d k).1.get k = g.get d ++ g.get k := by
+  have h' := (GL.wf_iff g).1 h
+  have hwf2 : (g.group d k).1.WF' := GL.group_WF' h' d k
+  rw [← GL.members_abs hwf2 k, GL.abs_group h' d k]
+  unfold RefGL.group
+  have hl : RefGL.leaders (GL.abs g) = g.lst := GL.leaders_abs g
+  simp only [hdk, hl, hd, hk, not_true_eq_false, or_self, if_false]
+  unfold RefGL.members
+  rw [get?_filter_ne _ d k (Ne.symm hdk), get?_set_same]
+  simp only [Option.getD_some]
+  have e1 := GL.members_abs h' d
+  have e2 := GL.members_abs h' k
+  unfold RefGL.members at e1 e2
+  rw [e1, e2]
+
+/-- … and leaves every other group as it was. -/
+theorem group_keeps_other_groups {g : GL} (h : g.WF) {d k l : Val} (hd : d ∈ g.lst) (hk : k ∈ g.lst) (hdk : d ≠ k)
+    (hld : l ≠ d) (hlk : l ≠ k) : (g.group d k).1.get l = g.get l := by
+  have h' := (GL.wf_iff g).1 h
+  have hwf2 : (g.group d k).1.WF' := GL.group_WF' h' d k
+  rw [← GL.members_abs hwf2 l, GL.abs_group h' d k]
+  unfold RefGL.group
+  have hl : RefGL.leaders (GL.abs g) = g.lst := GL.leaders_abs g
+  simp only [hdk, hl, hd, hk, not_true_eq_false, or_self, if_false]
+  unfold RefGL.members
+  rw [get?_filter_ne _ d l hld, get?_set_other _ k l _ hlk]
+  have e1 := GL.members_abs h' l
+  unfold RefGL.members at e1
+  exact e1
+
+/-- **After `group d k` the members of the discarded group carry the kept group's label** (and so
+    do the kept group's own members): whatever position `i` the kept leader has in the edited order,
+    every such value is transformed into the `i`-th label.  With `C04.transform_seen_qual` this is
+    the statement about `transform` on whole frames; `group_keeps_other_groups` is the statement
+    that the grouping of all other values is unchanged. -/
+theorem group_edit_label {g : GL} (h : g.WF) {d k : Val} (hd : d ∈ g.lst) (hk : k ∈ g.lst) (hdk : d ≠ k)
+    (labels : List Val) (strNan strDefault : Option String) (i : Nat) (hi : i < (g.group d k).1.lst.length)
+    (hl : i < labels.length) (hik : (g.group d k).1.lst[i] = k) (v : Val) (hv : v ∈ g.get d ∨ v ∈ g.get k) :
+    Disc.qualCell (Disc.tableOf (g.group d k).1 labels) (Disc.qualPrepared (g.group d k).1 strNan strDefault (some v)) =
+      some labels[i] := by
+  have hwf2 : (g.group d k).1.WF := (GL.wf_iff _).2 (GL.group_WF' ((GL.wf_iff g).1 h) d k)
+  apply C04.qualCell_member (g.group d k).1 hwf2 labels strNan strDefault i hi hl v
+  rw [hik, group_merges_members h hd hk hdk]
+  exact List.mem_append.2 hv
 
 /-! ## Non-vacuity -/
 private def g0 : GL := GL.ofList [.str "a", .str "b", .str "c"]
